@@ -44,8 +44,8 @@ func init() {
 		ID: "C15",
 		Explanation: "Decides structural necessary conditions of token-set resolution: SIBLING(resolvesets): each work-list case of syntax.ResolveSets (any/first/last/precede/follow) instantiates the sets its definition needs, walks the rule in the right direction from the right position, stops after the first non-nullable symbol (polarity of the nullable test) and falls through to the enclosing nonterminal only when the walk was not stopped. MUSTPASS(set-contribution): in the any/first/last cases every rule reaches the rules[r].set test (set-defined nonterminals are empty rules carrying a set). " +
 			"SHARED: an in-place, self-dependent rewrite of TokenSet nodes inside a per-set traversal consults a visited set that outlives one traversal (nodes are shared between named sets). CYCLE: every recursion over *syntax.TokenSet (cyclic for mutually recursive named sets) is cut by a visited set keyed by the node. ALIAS/ESCAPE: scratch buffers of the set closure never alias an operand and buffer-backed slices are not retained. GUARD(complcycle): complement-on-cycle is reported exactly under op==complement ∧ onStack. DTX(setalg) as in C25. " +
-			"Not decided: that the fixpoint equals the definitional sets, Nullable(), reachability from the first input. LOOPSHAPE(first-input): syntax.rules leaves the loop over m.Inputs right after it enqueued the first end-of-input input (sets are computed over what the first input reaches, not over every input). GUARD(set-alias): in the second pass over named sets the node whose content is copied into a set's slot is fresh or known not to be another named set's slot (named sets may refer to sets declared later). DTX(nullable): isNullable, evaluated for every expression kind and every valuation of its operands (32 cells), is the documented table (wrappers Assign/Append/Arrow/Prec and `+` lists are as nullable as their operand, Choice = any, Sequence = all, Reference = membership).",
-		Rules: []string{"SIBLING(resolvesets)", "MUSTPASS(set-contribution)", "CYCLE", "SHARED", "ALIAS", "ESCAPE", "GUARD(complcycle)", "DTX(setalg)", "GUARD(unionclone)", "LOOPSHAPE(first-input)", "GUARD(set-alias)", "DTX(nullable)"},
+			"Not decided: that the fixpoint equals the definitional sets, Nullable(), reachability from the first input. LOOPSHAPE(first-input): syntax.rules leaves the loop over m.Inputs right after it enqueued the first end-of-input input (sets are computed over what the first input reaches, not over every input). GUARD(set-alias): in the second pass over named sets the node whose content is copied into a set's slot is fresh or known not to be another named set's slot (named sets may refer to sets declared later). DTX(nullable): isNullable, evaluated for every expression kind and every valuation of its operands (32 cells), is the documented table (wrappers Assign/Append/Arrow/Prec and `+` lists are as nullable as their operand, Choice = any, Sequence = all, Reference = membership). COPY(struct-slices): an instantiated copy of a set node (*ret = *set) gets a fresh Sub list before operands are appended. BOUNDARY(terminals) as in C14 (set leaves that refer to nonterminal #0 are renumbered too).",
+		Rules: []string{"SIBLING(resolvesets)", "MUSTPASS(set-contribution)", "CYCLE", "SHARED", "ALIAS", "ESCAPE", "GUARD(complcycle)", "DTX(setalg)", "GUARD(unionclone)", "LOOPSHAPE(first-input)", "GUARD(set-alias)", "DTX(nullable)", "COPY(struct-slices)", "BOUNDARY(terminals)"},
 		Run: func(c *Ctx) {
 			ruleRESOLVESETS(c)
 			ruleSETCONTRIB(c)
@@ -60,6 +60,8 @@ func init() {
 			ruleFIRSTINPUT(c)
 			ruleSETALIAS(c)
 			ruleNULLABLEDTX(c)
+			ruleSTRUCTCOPY(c, "syntax")
+			ruleBOUNDARY(c, "syntax", "compiler")
 		},
 	})
 }
@@ -112,8 +114,8 @@ func init() {
 		Explanation: "The compile-time precedence decision is a finite table; it is extracted from the code by abstract evaluation and compared with the documented one. DTX(resolvePrec): for every combination of (rule has precedence, lookahead has precedence, order of the two groups, associativity) the result equals: missing -> conflict; higher wins; equal -> left reduces, right shifts, nonassoc is an error. " +
 			"GUARD(lastterminal): the fallback takes the last RHS symbol with 0 < sym < Terminals (markers and nonterminals excluded). DTX(ruleAction): shift x {reduce, error, shift, conflict} -> {rule, -3, -1, -1}; an existing conflict or nonassoc error keeps its action; an unresolved reduce/reduce keeps the earlier rule and reports both. " +
 			"MUSTPASS(nonassoc-rewrite): -3 becomes the error code -2 before a row is emitted. LOCKSTEP(precGroup): later declaration = larger group. DTX(assocmap): %left/%right/%nonassoc map to Left/Right/NonAssoc. CODEC(optimize): nonassoc errors survive defaultReduce (every pair of a lookahead row stores its cell; only sentinel cells take the default). ORDER(alternatives): compiler.or keeps the base nonterminal's rules before the rules of its extend clauses, so the \"earlier rule\" of a reduce/reduce default is the one written first. " +
-			"Not decided: that the chosen action is what the running parser does (C01), hasConflict bookkeeping across several rules on one terminal. DTX(hasConflict) as in C03: a terminal already decided by precedence still goes through precedence resolution for the next rule.",
-		Rules: []string{"ORDER(alternatives)", "DTX(resolvePrec)", "GUARD(lastterminal)", "DTX(ruleAction)", "MUSTPASS(nonassoc-rewrite)", "LOCKSTEP(precGroup)", "DTX(assocmap)", "CODEC(optimize)", "DTX(hasConflict)"},
+			"Not decided: that the chosen action is what the running parser does (C01), hasConflict bookkeeping across several rules on one terminal. DTX(hasConflict) as in C03: a terminal already decided by precedence still goes through precedence resolution for the next rule. SIGNATURE(lalr-cell) as in C06: under minimizeDFA the per-terminal entries of a lookahead state (nonassoc errors included) are part of the state's signature.",
+		Rules: []string{"ORDER(alternatives)", "DTX(resolvePrec)", "GUARD(lastterminal)", "DTX(ruleAction)", "MUSTPASS(nonassoc-rewrite)", "LOCKSTEP(precGroup)", "DTX(assocmap)", "CODEC(optimize)", "DTX(hasConflict)", "SIGNATURE(lalr-cell)"},
 		Run: func(c *Ctx) {
 			ruleORORDER(c)
 			ruleRESOLVEPREC(c)
@@ -121,6 +123,7 @@ func init() {
 			ruleRULEACTION(c)
 			rulePRECPLUMBING(c)
 			ruleOPTCODEC(c)
+			ruleSIGCELL(c)
 		},
 	})
 	register(&Property{
@@ -151,12 +154,13 @@ func init() {
 		ID: "C24",
 		Explanation: "Decides structural necessary conditions of 'shift-DFA scanners agree with the tables they pack': INTERVAL(bitpack): with field width W read from Pack (target*W, state*W), the accepted number of states K satisfies K*W <= 64, (K-1)*W < 2^W and K <= len(onEoi); actions < A encode as action*2+1 < 2^W; Scan decodes with mask 2^W-1, /W and /2. " +
 			"CONSTAGREE(ascii): the guard on the last symbol-map entry is <= the byte split (128) below which bytes are mapped individually. GUARD(nobacktrack): tables with checkpoints or several start states are rejected (the -1-cell decode and state 0 start are valid only then). GLOBALS: no package-level mutable state in shiftdfa. " +
-			"Not decided: equality of results on all inputs as such. CONSTAGREE(last-entry): the symbol Pack gives to all non-ASCII bytes is the Target of the last SymbolMap entry (the catch-all range), as lex.Tables documents.",
-		Rules: []string{"INTERVAL(bitpack)", "CONSTAGREE(ascii)", "GUARD(nobacktrack)", "GLOBALS", "CONSTAGREE(last-entry)"},
+			"Not decided: equality of results on all inputs as such. CONSTAGREE(last-entry): the symbol Pack gives to all non-ASCII bytes is the Target of the last SymbolMap entry (the catch-all range), as lex.Tables documents. CODEC(lexdfa): the reference side - lex.Tables.Scan decodes the cell classes as documented, including the end-of-input fallback to the last accepted position.",
+		Rules: []string{"INTERVAL(bitpack)", "CONSTAGREE(ascii)", "GUARD(nobacktrack)", "GLOBALS", "CONSTAGREE(last-entry)", "CODEC(lexdfa)"},
 		Run: func(c *Ctx) {
 			ruleSHIFTDFA(c)
 			ruleLASTENTRY(c)
 			rulePKGGLOBALS(c, "shiftdfa")
+			ruleLEXCODEC(c)
 		},
 	})
 }
@@ -185,8 +189,8 @@ func init() {
 		ID: "C10",
 		Explanation: "Decides structural necessary conditions of 'patterns denote their documented sets': INTERVAL(digit): hexval/octval, evaluated abstractly on a partition of the rune line, return exactly the digit value on digit ranges and -1 elsewhere. INTERVAL(accumulator): every digit accumulation loop in parseEscape has a constant trip count that fits 31 bits or a range check inside the loop (no int32 wrap-around). " +
 			"GUARD(fold): Unicode fold tables are appended only under opts.Fold. GUARD(invrange): a two-bound class range is inserted only after hi < lo was rejected. DTX(negation): \\p-negation = (letter is P) XOR (leading ^). LOOPSHAPE(fold-orbit): the SimpleFold orbit loop leaves only through its header. DTX(rune-fold): in bytes mode a rune above 0x7f is never folded (it must stay a single rune to become a byte literal). MUSTPASS(class-order): a bracket class is built as ranges, minus subtractions, then folded, then complemented. INPLACE(write-behind-read): the in-place range filters (charset.subtract/invert and the other out := r[:0] loops of lex and compiler) never append past the read cursor while sharing the input's array (finite abstraction of len(out)-i, comparisons between them decided exactly). LOCKSTEP(offset-column): a regexp error narrowed inside the pattern moves Offset and Column by the same amount. " +
-			"Not decided: the denotation of well-formed patterns in general (set algebra on ranges, quantifiers, parentheses).",
-		Rules: []string{"INTERVAL(digit)", "INTERVAL(accumulator)", "GUARD(fold)", "GUARD(invrange)", "DTX(negation)", "LOOPSHAPE(fold-orbit)", "DTX(rune-fold)", "MUSTPASS(class-order)", "LOCKSTEP(offset-column)", "INPLACE(write-behind-read)"},
+			"Not decided: the denotation of well-formed patterns in general (set algebra on ranges, quantifiers, parentheses). GLOBALS: packages compiler and lex keep no mutable package-level state (sync.Map and similar containers included), so what a pattern denotes cannot depend on patterns compiled earlier in the process under other options.",
+		Rules: []string{"INTERVAL(digit)", "INTERVAL(accumulator)", "GUARD(fold)", "GUARD(invrange)", "DTX(negation)", "LOOPSHAPE(fold-orbit)", "DTX(rune-fold)", "MUSTPASS(class-order)", "LOCKSTEP(offset-column)", "INPLACE(write-behind-read)", "GLOBALS"},
 		Run: func(c *Ctx) {
 			ruleCLASSORDER(c)
 			ruleINPLACE(c, "lex", "compiler")
@@ -198,6 +202,7 @@ func init() {
 			rulePNEG(c)
 			ruleFOLDORBIT(c)
 			ruleRUNEFOLD(c)
+			rulePKGGLOBALS(c, "compiler", "lex")
 		},
 	})
 }
@@ -219,9 +224,9 @@ func init() {
 		Explanation: "Decides structural necessary conditions of 'tokenization progresses and tracks lines' on the five generated lexers, tm's hand-written skipAction and js's lexer_impl: PROGRESS: on the no-match path an empty token is extended by l.rewind(l.scanOffset). CURSOR: every read l.source[e] is dominated by e < len(l.source) and the scan offset advances only under l.offset < len(l.source). " +
 			"LINECOL: every store to lineOffset equals the offset of the first byte of the current line (0; 1+LastIndexByte(source[:offset],'\\n'); under l.ch=='\\n' the scan offset); functions that bump l.line keep lineOffset in step when the lexer reports columns; every cycle that advances the cursor passes the newline test; rewind subtracts newlines of source[offset:l.offset] when moving back and adds those of source[l.offset:offset] when moving forward. " +
 			"RESET(checkpoint): the backtracking checkpoint is -1 on every edge into the scanning loop, including each goto restart after a skipped token. CODEC(runemap): generated mapRune reads an entry of the compressed rune map only for r.lo <= c < r.hi, the half-open interval lex.CompressedMap fills. " +
-			"Not decided: tiling (needs table semantics), the BOM clause, js's regexp/template/JSX state machine beyond these rules. GUARD(empty-accept) as in C09 (no rule matches the empty string, so every token is non-empty). TYPESTATE(ch-tested): on every path to an overwrite of l.ch by the inlined advance, the current character was compared since it was last set (by a store or by rewind), so a newline under the cursor is never skipped uncounted.",
-		Rules: []string{"PROGRESS", "CURSOR", "LINECOL", "CODEC(runemap)", "RESET(checkpoint)", "GUARD(empty-accept)", "TYPESTATE(ch-tested)"},
-		Run:   func(c *Ctx) { rulePROGRESS(c); ruleCURSOR(c); ruleLINECOL(c); ruleRUNEMAP(c); ruleCKRESET(c); ruleEMPTYACCEPT(c); ruleCHTESTED(c) },
+			"Not decided: tiling (needs table semantics), the BOM clause, js's regexp/template/JSX state machine beyond these rules. GUARD(empty-accept) as in C09 (no rule matches the empty string, so every token is non-empty). TYPESTATE(ch-tested): on every path to an overwrite of l.ch by the inlined advance, the current character was compared since it was last set (by a store or by rewind), so a newline under the cursor is never skipped uncounted. FIELDCOV(checkpoint) as in C09: backtracking checkpoints are keyed by target state and accepted rule.",
+		Rules: []string{"PROGRESS", "CURSOR", "LINECOL", "CODEC(runemap)", "RESET(checkpoint)", "GUARD(empty-accept)", "TYPESTATE(ch-tested)", "FIELDCOV(checkpoint)"},
+		Run:   func(c *Ctx) { rulePROGRESS(c); ruleCURSOR(c); ruleLINECOL(c); ruleRUNEMAP(c); ruleCKRESET(c); ruleEMPTYACCEPT(c); ruleCHTESTED(c); ruleCHECKPOINTKEY(c) },
 	})
 	register(&Property{
 		ID: "C11",
